@@ -162,8 +162,53 @@ def check_project(chk, name, fname, content, fmt, opt, model, kind):
     chk.sample({"project": tag, "NSPECIES": NS, "NELEMENTS": NE, "species_macros": dict(list(spec.items())[:6])}, limit=12)
 
 
+def check_export_summary(chk, name, fname, content, fmt, opt, model):
+    """export path: the [summary] that Network.export writes lists species names and aliases in slot order"""
+    import tomlkit
+
+    tgt = proj.TARGETS["dense"]
+    tdir = tgt["dir"]
+    net = {"filelist": fname, "fileformats": fmt, "grain_model": model}
+    if opt.get("elements"):
+        net["elements"] = opt["elements"].split(",")
+        net["pseudo_elements"] = opt.get("pseudo", "CR").split(",")
+    else:
+        net["elements"] = "e,E,H,D,He,C,N,O,F,Ne,Na,Mg,Al,Si,P,S,Cl,Ar,Ca,Fe,Ni".split(",")
+        net["pseudo_elements"] = "CR,CRP,XRAY,Photon,PHOTON,CRPHOT,X,M,p,o,m,c-,l-,\\*,g".split(",")
+    if opt.get("extra"):
+        net["required_species"] = [x for x in opt["extra"].split(",") if x]
+    p = proj.render(f"c09-export-{name}", {"files": [{"name": fname, "content": content}], "network": net, "targets": [dict(tgt)], "ops": [{"op": "export", "name": tdir, "prefix": "exp"}]})
+    tag = f"{name}/export"
+    if not p.ok or not p.target_ok(tdir):
+        chk.unknown(tag, f"API rendering refused: {str(p.meta.get('error'))[-160:]}")
+        return
+    cfg = os.path.join(p.dir, "exp", tdir, "naunet_config.toml")
+    if not os.path.exists(cfg):
+        chk.unknown(tag, "export wrote no configuration file")
+        return
+    chk.programs += 1
+    summ = tomlkit.loads(open(cfg).read())["summary"]
+    macros = p.macros(tdir)
+    order = sorted(p.meta["species"], key=lambda s_: macros["IDX_" + s_["alias"]])
+    names, aliases = [s_["name"] for s_ in order], [s_["alias"] for s_ in order]
+    got_n, got_a = list(summ["list_of_species"]), list(summ["list_of_species_alias"])
+    if got_n == names and got_a == aliases and summ["num_of_species"] == len(names):
+        chk.ok(f"{tag}:summary")
+        chk.nontrivial.add(f"{tag}:summary")
+    else:
+        i = next((k for k in range(min(len(got_n), len(names))) if got_n[k] != names[k] or (k < len(got_a) and got_a[k] != aliases[k])), None)
+        chk.violation(f"{tag}:summary-order", f"[summary] written by Network.export does not list the species in slot order: position {i} holds {got_n[i] if i is not None and i < len(got_n) else None!r} / {got_a[i] if i is not None and i < len(got_a) else None!r}, the index macros put {names[i] if i is not None else None!r} / {aliases[i] if i is not None else None!r} there",
+                      {"case": name, "list_of_species": got_n, "list_of_species_alias": got_a, "slot_order_names": names, "slot_order_aliases": aliases})
+
+
 def run(pid, tier):
     chk = chx_props.main("C09", tier)
+    for name, fname, content, fmt, opt, model in projects():
+        if name in ("naming", "required-overlap") or tier == "thorough":
+            try:
+                check_export_summary(chk, name, fname, content, fmt, opt, model)
+            except Exception as e:
+                chk.harness_error(f"{name}/export: {type(e).__name__}: {e}")
     for name, fname, content, fmt, opt, model in projects():
         for kind in (["dense", "odeint"] if tier == "thorough" or name == "naming" else ["dense"]):
             try:
